@@ -909,7 +909,8 @@ static void janet_thread_chan_cb(JanetEVGenericMessage msg) {
         } else if (mode == JANET_CP_MODE_WRITE) {
             janet_schedule(fiber, janet_wrap_channel(channel));
         } else { /* (mode == JANET_CP_MODE_CLOSE) */
-            janet_schedule(fiber, janet_wrap_nil());
+            /* argj is true if the waiter was a select clause, which resumes with [:close chan] */
+            janet_schedule(fiber, janet_truthy(x) ? make_close_result(channel) : janet_wrap_nil());
         }
     } else if (mode != JANET_CP_MODE_CLOSE) {
         /* Fiber has already been cancelled or resumed. */
@@ -1347,7 +1348,7 @@ JANET_CORE_FN(cfun_channel_close,
                 msg.argp = channel;
                 msg.tag = JANET_CP_MODE_CLOSE;
                 msg.argi = (int32_t) writer.sched_id;
-                msg.argj = janet_wrap_nil();
+                msg.argj = janet_wrap_boolean(writer.mode == JANET_CP_MODE_CHOICE_WRITE);
                 janet_ev_post_event(vm, janet_thread_chan_cb, msg);
             } else {
                 if (janet_fiber_can_resume(writer.fiber) && writer.sched_id == writer.fiber->sched_id) {
@@ -1368,7 +1369,7 @@ JANET_CORE_FN(cfun_channel_close,
                 msg.argp = channel;
                 msg.tag = JANET_CP_MODE_CLOSE;
                 msg.argi = (int32_t) reader.sched_id;
-                msg.argj = janet_wrap_nil();
+                msg.argj = janet_wrap_boolean(reader.mode == JANET_CP_MODE_CHOICE_READ);
                 janet_ev_post_event(vm, janet_thread_chan_cb, msg);
             } else {
                 if (janet_fiber_can_resume(reader.fiber) && reader.sched_id == reader.fiber->sched_id) {
